@@ -219,6 +219,10 @@ def scenarios(maxlen, with_raises):
                         yield fams, modes, ct, alias
 
 
+class _ScenarioViolated(Exception):
+    pass
+
+
 class C10(Check):
     id = "C10"
     level = "model_checking"
@@ -260,15 +264,27 @@ class C10(Check):
                 st.states.add(key)
                 if len(ch.trace) >= 2:
                     st.nontrivial.add(key)
-                st.outcome(h((o["res"][:2], tuple(sorted(o["closed"].items())))))
-                for sig, msg in judge(fams, modes, ct, o):
+                st.outcome(h((o["res"][:2], tuple(sorted(o["closed"].items(), key=repr)))))
+                bad = judge(fams, modes, ct, o)
+                if bad:
+                    nbad[0] += 1
+                for sig, msg in bad:
                     st.violation(sig + (":raises" if "raises" in modes else ":raises-other" if "raises-other" in modes else "")
                                  + (":duplicate-address" if alias else ""),
                                  "addresses %r%s modes %r connect_timeout=%r schedule %r: %s"
                                  % (fams, " (entry i repeats entry %r)" % (alias,) if alias else "", modes, ct, o["trace"], msg),
                                  {"fams": fams, "modes": modes, "ct": ct, "alias": alias, "choices": ch.choices()})
-            n, edges, capped = devex.explore(lambda ch: run(ch, fams, modes, ct, alias), bound=None, on_exec=on_exec,
-                                             max_execs=200000)
+                if nbad[0] >= 25:
+                    # the scenario is already violated (the check exits 1): no need to enumerate the rest of a
+                    # schedule tree that a broken connector may have made much larger
+                    raise _ScenarioViolated()
+            nbad = [0]
+            try:
+                n, edges, capped = devex.explore(lambda ch: run(ch, fams, modes, ct, alias), bound=None, on_exec=on_exec,
+                                                 max_execs=200000)
+            except _ScenarioViolated:
+                n, capped = 0, False
+                st.note("scenario_stopped_after_25_violating_schedules")
             if capped:
                 st.note("cap_hit")
             if len(st.samples) < 2 and len(fams) == 3:
